@@ -236,3 +236,88 @@ def contains(t, sub):
 
 def show(t):
     return T.show(t) if isinstance(t, T.Tm) else repr(t)
+
+
+# ---------------------------------------------------------------------- shape-plumbing erasure (C15 tensor forms)
+
+def _flatten_lit(t):
+    if T.is_app(t, 'array'):
+        out = []
+        for x in t[2]:
+            out.extend(_flatten_lit(x))
+        return out
+    return [t]
+
+
+def _regroup(flat, shape):
+    if len(shape) == 1:
+        return T.app('array', *flat)
+    step = len(flat) // shape[0]
+    return T.app('array', *[_regroup(flat[i * step:(i + 1) * step], shape[1:]) for i in range(shape[0])])
+
+
+def erase_shapes(t):
+    """Quotient by tensor plumbing that does not change values: reshape of literals is evaluated
+    (row-major), expand/squeeze/unsqueeze/flatten/ones-broadcast are dropped, 1xk literals are rows."""
+    memo = {}
+
+    def go(x):
+        if x in memo:
+            return memo[x]
+        k = x[0]
+        if k == 'app':
+            args = tuple(go(a) for a in x[2])
+            op = x[1]
+            r = None
+            if op == 'reshape':
+                a, shp = args
+                dims = shp[2] if T.is_app(shp, 'array') else ()
+                flat = _flatten_lit(a) if T.is_app(a, 'array') else None
+                if flat and dims and all(T.is_num(d) and d[2] == 1 for d in dims):
+                    shape = [d[1] for d in dims]
+                    tot = 1
+                    for d_ in shape:
+                        tot *= d_
+                    if tot == len(flat):
+                        while len(shape) > 1 and shape[0] == 1:
+                            shape = shape[1:]
+                        r = _regroup(flat, shape)
+                if r is None:
+                    r = a
+            elif op in ('expand', 'squeeze', 'unsqueeze', 'unsqueeze_dim', 'flatten_t'):
+                r = args[0]
+            elif op in ('ones',):
+                r = T.ONE
+            elif op in ('zeros_t', 'zeros_like'):
+                r = T.ZERO
+            elif op == 'array' and len(args) == 1 and T.is_app(args[0], 'array'):
+                r = args[0]
+            else:
+                r = T.app(op, *args)
+        elif k in ('num', 'sym'):
+            r = x
+        else:
+            r = T.subst(x, {a: go(a) for a in _direct_atoms(x)})
+        memo[x] = r
+        return r
+
+    return go(t)
+
+
+def _direct_atoms(x):
+    """immediate non-structural children of poly/cmp/ite/and/or/not/tuple nodes"""
+    k = x[0]
+    out = []
+    if k == 'poly':
+        for m, _c in x[1]:
+            for a, _e in m:
+                out.append(a)
+    elif k == 'cmp':
+        out.extend(_direct_atoms(x[2]) if x[2][0] == 'poly' else [x[2]])
+    elif k == 'not':
+        out.append(x[1])
+    elif k in ('and', 'or', 'tuple'):
+        out.extend(x[1])
+    elif k == 'ite':
+        out.extend(x.parts[1:])
+    return out
